@@ -6,20 +6,25 @@ from lib.framework import Check
 
 SEVS = ["trace", "debug", "info", "warn", "error", "fatal"]
 
-# (filter expression in prefix notation, number of members of the sink::sequence)
+# (filter expression in prefix notation, number of members of the sink::sequence, record type)
 #   Z = null_filter, T<k> = severity_filter<Record,k>, A = and_filter, O = or_filter, N = not_filter
+#   record type A = record<tag, message, severity, timestamp>; B = record<message, severity, timestamp, extra> (NO tag attribute).
+#   severity_filter<RecA,k> and severity_filter<RecB,k> are different class template instances with their own thresholds.
 LOGGERS = [
-    ("Z", 3),
-    ("T0", 1),
-    ("NT0", 2),
-    ("AT0T1", 2),
-    ("OT0T1", 2),
-    ("AT0NT1", 2),       # band: T0 <= sev < T1
-    ("ONT0T1", 2),
-    ("NAT0T1", 2),
-    ("NNT0", 2),         # the not_filter<not_filter<F>> specialisation
-    ("OAT0NT1NZ", 2),    # depth 3, with a negated null filter
+    ("Z", 3, "A"),
+    ("T0", 1, "A"),
+    ("NT0", 2, "A"),
+    ("AT0T1", 2, "A"),
+    ("OT0T1", 2, "A"),
+    ("AT0NT1", 2, "A"),       # band: T0 <= sev < T1
+    ("ONT0T1", 2, "A"),
+    ("NAT0T1", 2, "A"),
+    ("NNT0", 2, "A"),         # the not_filter<not_filter<F>> specialisation
+    ("OAT0NT1NZ", 2, "A"),    # depth 3, with a negated null filter
+    ("T0", 2, "B"),           # the same filter indices over another record type
+    ("AT0NT1", 2, "B"),
 ]
+RECS = "AB"
 KINDS = "SNC"            # structural item kinds: std::string, long long, callable
 # C++ shapes of a streamed callable (LogModel.ckind; the model ignores them, the harness instantiates each):
 #   o function object (temporary)      l lambda (temporary)               p plain function / function pointer
@@ -131,7 +136,11 @@ def hx(s):
 
 
 def lgw(i):
-    return "%d/%s/%d" % (i, LOGGERS[i][0], LOGGERS[i][1])
+    return "%d/%s/%d/%s" % (i, LOGGERS[i][0], LOGGERS[i][1], LOGGERS[i][2])
+
+
+def rec_of(lg):
+    return LOGGERS[lg][2]
 
 
 def tagw(t):
@@ -151,8 +160,14 @@ def itemsw(its):
     return ",".join(itemw(i) for i in its) if its else "."
 
 
-def op_set(k, s):
-    return "T%d%d" % (k, s)
+def op_set(rc, k, s):
+    """severity_filter<Rec rc, k>::set_severity(s)"""
+    return "T%s%d%d" % (rc, k, s)
+
+
+def op_get(rc, k):
+    """observe severity_filter<Rec rc, k>::min_severity()"""
+    return "G%s%d" % (rc, k)
 
 
 def op_one(lg, sv, tag, its):
@@ -213,7 +228,7 @@ def holds(f, th, sv):
     return holds(f[1], th, sv) or holds(f[2], th, sv)
 
 
-FEXPRS = [parse_f(f)[0] for f, _ in LOGGERS]
+FEXPRS = [parse_f(l[0])[0] for l in LOGGERS]
 
 
 def thresholds_used(lg):
@@ -224,11 +239,12 @@ def thresholds_used(lg):
 def threshold_settings(lg):
     """all threshold assignments that matter for this logger's filter (as op lists)"""
     u0, u1 = thresholds_used(lg)
+    rc = rec_of(lg)
     r0 = range(6) if u0 else [None]
     r1 = range(6) if u1 else [None]
     for a in r0:
         for b in r1:
-            yield ([op_set(0, a)] if a is not None else []) + ([op_set(1, b)] if b is not None else [])
+            yield ([op_set(rc, 0, a)] if a is not None else []) + ([op_set(rc, 1, b)] if b is not None else [])
 
 
 # fixed item values per kind and position (the text/number/id differ by position so that order is visible)
@@ -284,7 +300,7 @@ def quick_deterministic():
         for sv in range(6):
             for form in "on":
                 for tag in TAGS:
-                    for lg, pre in ((5, [op_set(0, 1), op_set(1, 4)]), (0, [])):
+                    for lg, pre in ((5, [op_set("A", 0, 1), op_set("A", 1, 4)]), (0, [])):
                         for sh in shapes_for(lg):
                             yield case(mn, pre + stmt_ops(form, lg, sv, tag, shape_items(sh))), "stmt-shapes"
 
@@ -335,7 +351,9 @@ def rand_program(rng, mn=None):
         lg = rng.randrange(len(LOGGERS))
         sv = rng.randrange(6) if rng.random() < 0.6 else min(5, max(0, mn + rng.choice([-1, 0, 0, 1])))
         if r < 0.2:
-            ops.append(op_set(rng.randrange(2), rng.randrange(6)))
+            ops.append(op_set(rng.choice(RECS), rng.randrange(2), rng.randrange(6)))
+            if rng.random() < 0.3:
+                ops.append(op_get(rng.choice(RECS), rng.randrange(2)))
         elif r < 0.45:
             its = fit(lg, [rand_item(rng, 9) for _ in range(rng.randint(0, 3))])
             ops.append(op_one(lg, sv, rand_tag(rng), its))
@@ -361,7 +379,7 @@ def rand_statement_sequence(rng):
     ops = []
     for _ in range(rng.randint(2, 6)):
         if rng.random() < 0.3:
-            ops.append(op_set(rng.randrange(2), rng.randrange(6)))
+            ops.append(op_set(rng.choice(RECS), rng.randrange(2), rng.randrange(6)))
         lg = rng.randrange(len(LOGGERS))
         form = rng.choice("on")
         its = [rand_item(rng, 9) for _ in range(rng.randint(0, 3))]
@@ -379,9 +397,32 @@ def mid_threshold_cases():
                 for t_before in (0, sv, min(5, sv + 1)):
                     for t_after in (0, 5):
                         k = CKINDS[(lg + sv + t_before + t_after) % len(CKINDS)]
-                        ops = [op_set(0, t_before), op_open(1, lg, sv, "g"), op_put(1, ("C", 1, "p", k)), op_set(0, t_after), op_set(1, t_after),
+                        ops = [op_set("A", 0, t_before), op_open(1, lg, sv, "g"), op_put(1, ("C", 1, "p", k)), op_set("A", 0, t_after), op_set("A", 1, t_after),
                                op_one(lg, sv, None, [("C", 2, "q", k)]), op_put(1, ("S", "r")), op_close(1)]
                         yield case(mn, ops), "mid-threshold"
+
+
+def cross_record_cases():
+    """thresholds are per (record type, index): two logger types with the same filter indices over different record types.
+    The threshold of one is set after the other was configured or left at its default; statements on each with a severity
+    between the two thresholds; the getter of one read after setting the other; named streams open across the change"""
+    for mn in (0, 2, 4):
+        for la, lb in ((1, 10), (5, 11), (3, 10)):
+            ra, rb = rec_of(la), rec_of(lb)
+            for ta in range(6):
+                for tb in range(6):
+                    for order in range(3):
+                        sets = {0: [op_set(rb, 0, tb), op_set(ra, 0, ta)],      # B configured, then A
+                                1: [op_set(ra, 0, ta), op_set(rb, 0, tb)],      # A configured, then B
+                                2: [op_set(ra, 0, ta)]}[order]                  # B left at its default
+                        pre = [op_set(ra, 1, 5), op_set(rb, 1, 5)] if "T1" in LOGGERS[la][0] + LOGGERS[lb][0] else []
+                        lo, hi = min(ta, tb), max(ta, tb)
+                        for sv in sorted(set([lo, (lo + hi) // 2, hi, max(0, lo - 1)])):
+                            ops = pre + sets + [op_get(rb, 0), op_get(ra, 0),
+                                                op_one(lb, sv, "t", [("S", "b")]), op_one(la, sv, "t", [("S", "a")]),
+                                                op_open(0, lb, sv, None), op_set(ra, 0, (ta + 3) % 6), op_get(rb, 0),
+                                                op_put(0, ("C", 1, "x", "f")), op_one(lb, sv, None, [("C", 2, "y", "l")]), op_close(0)]
+                            yield case(mn, ops), "cross-record"
 
 
 def parse_case(line):
@@ -410,6 +451,7 @@ class LogCheck(Check):
     def base_cases(self, tier, rng):
         yield from kind_cases()
         yield from mid_threshold_cases()
+        yield from cross_record_cases()
         if tier == "quick":
             yield from quick_deterministic()
             # every 5th statement of the complete single-statement space (5 is coprime to the inner loop sizes 118, 31, 2, 2, 6)
